@@ -717,7 +717,7 @@ def c19_special(pid, prop, tier, seed, b):
     for i in range(120 * n):
         ents, seqs = [], []
         for j in range(rng.randint(1, 3)):
-            bn = rng.choice(['foo.', 'bar_', 'img.', 'shot_010_']) + ('' if j == 0 else 'v%s_' % 'abc'[j])
+            bn = rng.choice(['foo.', 'bar_', 'img.', 'shot_010_', 'plate', 'a', 'mx-']) + ('' if j == 0 else 'v%s_' % 'abc'[j])
             e = rng.choice(['.exr', '.jpg', '.tar.gz'])
             w = rng.choice([1, 3, 4, 5])
             vals = sorted(set(rng.randint(10 ** (w - 1) if w > 1 else 1, 10 ** w - 1) for _ in range(rng.randint(2, 6))))
@@ -727,6 +727,11 @@ def c19_special(pid, prop, tier, seed, b):
             for v in vals:
                 ents.append('F:' + hid + bn + str(v).rjust(w, '0') + e)
             seqs.append((hid + bn, e, w))
+            # frame-less files named like the sequence without its number
+            if rng.random() < 0.4:
+                ents.append('F:' + hid + bn + e)
+            if rng.random() < 0.15 and not bn.endswith('-'):
+                ents.append('F:' + hid + bn + '-' + e)
         for nm in rng.sample(['readme.txt', 'notes', 'Makefile', '.hiddenfile', 'a.b.c'], rng.randint(0, 3)):
             ents.append('F:' + nm)
         if rng.random() < 0.3:
